@@ -261,6 +261,26 @@ func runC06(seed int64, n int, dir string, tier string) *Report {
 	for _, nm := range nearMiss {
 		probe("near-miss", []byte(nm.s), nm.want, true)
 	}
+	// one sniffer value used for two inputs in a row: what it reports for the second must be what a fresh
+	// sniffer reports (a declaration that fails to decode half way must leave nothing behind)
+	{
+		first := []string{`{"bomFormat":"CycloneDX","specVersion":1.5}`, `{"bomFormat":"CycloneDX","specVersion":"1.4","spdxVersion":23}`, `{"bomFormat":7,"spdxVersion":"SPDX-2.2"}`,
+			`{"spdxVersion":"SPDX-2.3","specVersion":[1]}`, `{"bomFormat":"CycloneDX","specVersion":"1.5"`, "SPDXVersion: SPDX-2.2\n", `{"bomFormat":"CycloneDX","specVersion":"1.3"}`}
+		second := []string{`{"spdxVersion":"SPDX-2.3"}`, `{"name":"no declaration"}`, `{"bomFormat":"CycloneDX","specVersion":"1.5"}`, `{"specVersion":"1.4"}`, `{}`, "SPDXVersion: SPDX-2.3\n", `{"bomFormat":"CycloneDX"}`}
+		for _, a := range first {
+			for _, b := range second {
+				shared := &formats.Sniffer{}
+				_, _ = shared.SniffReader(bytes.NewReader([]byte(a)))
+				got, err := shared.SniffReader(bytes.NewReader([]byte(b)))
+				want, werr := (&formats.Sniffer{}).SniffReader(bytes.NewReader([]byte(b)))
+				rep.OracleEvals++
+				rep.Count("history-of-two")
+				if got != want || (err == nil) != (werr == nil) {
+					rep.Fail(Failure{What: "format detection depends on what the same sniffer was given before", Detail: fmt.Sprintf("after %s: %q (%v); on a fresh sniffer: %q (%v)", a, got, err, want, werr), Input: map[string]any{"first": a, "second": b}})
+				}
+			}
+		}
+	}
 	// every truncation of tag-value headers, with and without a line end after the cut
 	for _, text := range []string{"SPDXVersion: SPDX-2.3\nDataLicense: CC0-1.0\n", "# c\r\nSPDXVersion: SPDX-2.2\r\nDataLicense: CC0-1.0\r\n", "SPDXVersion:SPDX-2.3"} {
 		for k := 0; k <= len(text); k++ {
